@@ -6,7 +6,11 @@ ContentSequence.from_sequence (class dispatch), both also after dcmwrite +
 dcmread of the bare dataset; sr.coding.CodedConcept (constructor, accessors,
 from_dataset); the SCOORD / SCOORD3D graphic-data validation incl. degenerate
 contours; spatial.are_points_coplanar directly; histories of value reads /
-in-place changes by the caller / GraphicData edits on one SCOORD(3D) item.
+in-place changes by the caller / GraphicData edits on one SCOORD(3D) item;
+3D POLYGON contours whose end points almost meet (gap of k ulp / a fraction of the
+coordinate / an absolute size, at 0 .. 1e6 mm from the origin) through
+Scoord3DContentItem, ImageRegion3D, CoordinatesForMeasurement3D and VolumeSurface;
+datasets whose value sequences lack an inner attribute / are empty / have a second item.
 Model: coq/theories/C13_Model.v; theorems: C13_Props.v.
 """
 import copy
@@ -50,13 +54,19 @@ MODELLED = ('sr/value_types.py: the 15 constructors (attribute writing + validat
             'len(str(value)) <= 16 rule of NumContentItem for ints and exact representability as a double; '
             'histories of reads of ScoordContentItem.value / Scoord3DContentItem.value (a fresh array per access, a copy '
             'stored by the constructor: in-place changes of arrays handed out or handed in do not reach the item, edits '
-            'and re-assignment of GraphicData do); spatial.are_points_coplanar driven directly.')
+            'and re-assignment of GraphicData do); spatial.are_points_coplanar driven directly; the closedness test of '
+            'Scoord3DContentItem.__init__ as EXACT equality of the first and the last row (run_scoord3d), also behind the '
+            'constructors of ImageRegion3D / CoordinatesForMeasurement3D / VolumeSurface, which hand the rows on unchanged; '
+            'NumContentItem.from_dataset reading MeasuredValueSequence[0].MeasurementUnitsCodeSequence[0] unconditionally '
+            '(value_codes / accept), the accessors reading the inner attributes of the value sequences (read_value).')
 STRATA = ['tree', 'code', 'code_from', 'scoord', 'scoord3d', 'malformed', 'seqmode', 'seqops', 'subclass', 'num_int',
-          'falsy', 'history', 'coplanar', 'concept']
+          'falsy', 'history', 'coplanar', 'concept', 'nearclosed', 'nested']
 NOT_EXECUTED = ['near-tolerance coplanarity (deviation from the least-squares plane between 1e-7 and 1e-3: not judged)',
                 'non-ASCII text (model strings are ASCII)',
                 'sr/content.py: constructors and accessors of the template content items, VolumeSurface / '
-                'ReferencedSegment / ReferencedSegmentationFrame (only the from_dataset of the 12 item classes is driven)',
+                'ReferencedSegment / ReferencedSegmentationFrame (only the from_dataset of the 12 item classes is driven, and '
+                'the constructors of ImageRegion3D / CoordinatesForMeasurement3D / VolumeSurface for the verdict on POLYGON '
+                'graphic data)',
                 'coded concepts with scheme SRT (pydicom maps SRT to SCT in Code.__eq__; not modelled)']
 RULE = ('tree: random content trees of depth <= 4 over all 15 value types (codes <=16/>16/URN/URL, ints, '
         'dyadic and extreme floats, dates/times with fractions and offsets, every graphic type with valid '
@@ -95,7 +105,19 @@ RULE = ('tree: random content trees of depth <= 4 over all 15 value types (codes
         'that moment; scoord3d also: closed contours of 6-9 points that START (or end, or - rotated - continue) with '
         'three collinear or repeated vertices with and without a later vertex lifted out of the plane, the lifted vertex '
         'at every position, all points on a line / identical; coplanar: are_points_coplanar itself on 0-9 points of '
-        'the same families, unclosed, permuted, and on n x 2 input. '
+        'the same families, unclosed, permuted, and on n x 2 input; nearclosed: exactly coplanar 3D POLYGON contours of '
+        '4-8 rows (plane normal to an axis with arbitrary doubles, or an oblique rational plane with dyadic coordinates) '
+        'lying 0 / 1 / 41 / 210 / 1532 / 123456 / 2^20 / 1e6 mm from the origin, whose last row misses the first by 1-1000 ulp | '
+        'a fraction 2^-6 .. 2^-44 of the coordinate | 2^-1 .. 2^-40 mm in one, two or three components | nothing but the '
+        'sign of a zero | nothing (must be accepted, report the rows, and parse back to their single-precision images), '
+        'through Scoord3DContentItem, ImageRegion3D, CoordinatesForMeasurement3D and the second contour of a VolumeSurface: '
+        'open = ValueError, however small the gap; nested: every value type with a sequence in its value x every attribute '
+        'of the first item deleted (NUM: NumericValue / FloatingPointValue / MeasurementUnitsCodeSequence x int / float / '
+        '> 16 character int x with / without qualifier; SOP class / instance UID, frame / segment numbers, channels; '
+        'template identification) | the sequence emptied (also the unit, qualifier, CODE value and - for all 15 value types - '
+        'the NAME sequence) | a second item (empty or lacking an attribute) behind the complete first one; flat or 1-2 '
+        'containers deep, plain or byte round-tripped; observed like concept (from_dataset alone, from_sequence alone, both '
+        '+ accessors). '
         'non-trivial = tree with >= 2 nodes or a rejected input; distinct by case hash')
 
 VTS = ['CODE', 'COMPOSITE', 'CONTAINER', 'DATE', 'DATETIME', 'IMAGE', 'NUM', 'PNAME', 'SCOORD',
@@ -781,6 +803,179 @@ def g_history(rng):
             'ops': ops}
 
 
+# ---- 3D contours whose end points ALMOST meet: gap size x distance from the origin ------------------------------------
+NEAR_VIA = ['item', 'item', 'item', 'region3d', 'coords3d', 'surface']
+NEAR_GAPS = ['ulp', 'ulp', 'rel', 'rel', 'rel', 'abs', 'abs', 'negzero', 'closed']
+
+
+def _exact(x):
+    """is the rational x a double?"""
+    try:
+        return F(float(x)) == x
+    except OverflowError:
+        return False
+
+
+def g_nearclosed(rng, gap=None, mag=None):
+    """a planar contour of 4-8 rows whose last row misses the first one by `gap` in 1-3 components; everything else about it
+    is admissible (count, dimension, exactly coplanar), so the only reason to refuse it is that it is open.
+    gap: k ulp of the coordinate | a fraction 2^-r of the coordinate, r = 6..44 | an absolute 2^-r mm, r = 1..40 |
+    none but 0.0 closes -0.0 (equal) | none (closed: must be accepted at the same place).
+    mag: distance of the contour from the origin of the frame of reference (0, a slide, a patient, a table position far
+    away, 2^20, 1e6 ...) - a comparison with a relative tolerance forgives larger gaps the farther away the contour is.
+    family A: plane normal to an axis, coordinates arbitrary doubles; family B: oblique rational plane, dyadic coordinates,
+    the gap vector a*u + b*v lies in the plane (checked: every coordinate is exactly a double)."""
+    import math
+    gap = gap or rng.choice(NEAR_GAPS)
+    mag = mag if mag is not None else rng.choice([0.0, 1.0, 17.5, 41.237, 210.5, 1500.0, 1532.25, 987.0, 2.0**20, 1e6,
+                                                  123456.789, 3e-3, 2.0**-12])
+    n = rng.choice([4, 5, 5, 6, 8])
+    m = n - 1
+    oblique = gap in ('rel', 'abs', 'closed') and rng.random() < 0.4
+    info = {}
+    if oblique:
+        u, v = rng.choice(BASES3[3:])
+        p0 = [F(rng.choice([-1, 1])) * F(round(mag * 8), 8) + F(rng.randint(-64, 64), 8) for _ in range(3)]
+        ab = [(F(0), F(0))] + [(F(rng.randint(-256, 256), 8), F(rng.choice([-1, 1]) * rng.randint(1, 256), 8)) for _ in range(m - 1)]
+        rows = [[p0[i] + a * u[i] + b * v[i] for i in range(3)] for a, b in ab]
+        last = list(rows[0])
+        if gap != 'closed':
+            for _ in range(30):
+                r = rng.choice([1, 3, 7, 10, 14, 17, 18, 20, 24, 27, 30, 34])
+                g = F(1, 2**r) if gap == 'abs' else F(2) ** (math.frexp(max(mag, 2.0**-20))[1] - r)
+                a, b = rng.choice([(g, 0), (0, g), (g, g), (-g, g), (g, -2 * g)])
+                cand = [rows[0][i] + a * u[i] + b * v[i] for i in range(3)]
+                if all(_exact(x) for x in cand) and cand != rows[0]:
+                    last, info = cand, {'r': r}
+                    break
+            else:
+                gap = 'closed'
+        rows = [[float(x) for x in r_] for r_ in rows + [last]]
+    else:
+        k = rng.randrange(3)                       # the plane is x_k = const
+        sg = [rng.choice([-1, 1]) for _ in range(3)]
+        c = sg[k] * mag + rng.choice([0.0, 0.5, rng.uniform(-3, 3)])
+        rows = []
+        for _ in range(m):
+            p = [sg[i] * mag + rng.uniform(-40, 40) for i in range(3)]
+            p[k] = c
+            rows.append(p)
+        if gap == 'negzero':                       # 0.0 == -0.0: the contour IS closed
+            j = rng.choice([i for i in range(3) if i != k])
+            rows[0][j] = 0.0
+            last = list(rows[0])
+            last[j] = -0.0
+        else:
+            last = list(rows[0])
+            comps = [i for i in range(3) if i != k]
+            for j in (comps if rng.random() < 0.35 else [rng.choice(comps)]):
+                x = last[j]
+                if gap == 'ulp':
+                    s = rng.choice([1, 1, 2, 3, 16, 1000])
+                    y = x
+                    for _ in range(min(s, 16)):
+                        y = math.nextafter(y, math.inf if rng.random() < 0.5 else -math.inf)
+                    if s == 1000:
+                        y = x + 1000 * math.ulp(x)
+                    info = {'ulps': s}
+                elif gap == 'rel':
+                    r = rng.choice([6, 10, 14, 16, 17, 18, 20, 24, 30, 40, 44])
+                    y = x * (1 + 2.0**-r) if x != 0 else 2.0**-r
+                    info = {'r': r}
+                elif gap == 'abs':
+                    r = rng.choice([1, 3, 7, 10, 14, 17, 20, 24, 27, 28, 30, 34, 40])
+                    y = x + rng.choice([-1, 1]) * 2.0**-r
+                    info = {'r': r}
+                else:
+                    y = x
+                last[j] = y
+            if last == rows[0]:
+                gap = 'closed'
+        rows.append(last)
+    return dict({'kind': 'nearclosed', 'pts': rows, 'gap': gap, 'mag': mag, 'oblique': oblique,
+                 'via': rng.choice(NEAR_VIA)}, **info)
+
+
+# ---- required attributes INSIDE the sequence items of a value ---------------------------------------------------------
+# value type -> {path of sequence keywords from the item: attributes of its first item that are driven}
+NESTED = {
+    'CODE': {'ConceptCodeSequence': []},               # the attributes of a coded concept are the subject of stratum concept
+    'NUM': {'MeasuredValueSequence': ['NumericValue', 'FloatingPointValue', 'MeasurementUnitsCodeSequence'],
+            'MeasuredValueSequence/MeasurementUnitsCodeSequence': [],
+            'NumericValueQualifierCodeSequence': []},
+    'COMPOSITE': {'ReferencedSOPSequence': ['ReferencedSOPClassUID', 'ReferencedSOPInstanceUID']},
+    'IMAGE': {'ReferencedSOPSequence': ['ReferencedSOPClassUID', 'ReferencedSOPInstanceUID', 'ReferencedFrameNumber',
+                                        'ReferencedSegmentNumber']},
+    'WAVEFORM': {'ReferencedSOPSequence': ['ReferencedSOPClassUID', 'ReferencedSOPInstanceUID', 'ReferencedWaveformChannels']},
+    'CONTAINER': {'ContentTemplateSequence': ['MappingResource', 'TemplateIdentifier']},
+}
+
+
+def g_nested(rng, t, seq, op, kw=None, variant=None):
+    """one item of value type t (flat or 1-2 containers deep, plain or byte round-tripped dataset); in the sequence `seq` of
+    its dataset: 'del' attribute kw of the first item | 'empty' the sequence | 'second': append an item that lacks kw (or
+    an empty item) behind the complete first one"""
+    tree = g_tree(rng, 0, 0, False, False, [t])
+    tree['t'], tree['val'] = t, g_value(rng, t, False)
+    v = tree['val']
+    if t == 'NUM':
+        variant = variant or rng.choice(['int', 'float', 'big'])
+        if variant == 'int':
+            v['num'], v['isf'] = rng.choice([0, 7, -12, 10**15, rng.randint(-10**6, 10**6)]), False
+        elif variant == 'float':
+            v['num'], v['isf'] = rng.choice([0.0, 2.5, -17.25, 0.1, 1e-300, rng.uniform(-1e6, 1e6)]), True
+        else:
+            v['num'], v['isf'] = rng.choice([10**16, 2**60, -(10**17) - 1, 12345678901234567890]), False
+        if seq == 'NumericValueQualifierCodeSequence' or rng.random() < 0.4:
+            v['qual'] = g_code(rng)
+        if kw == 'FloatingPointValue' and variant == 'int':
+            v['num'], v['isf'] = 2.5, True
+    if t == 'IMAGE':
+        if kw == 'ReferencedFrameNumber' or (kw != 'ReferencedSegmentNumber' and rng.random() < 0.4):
+            v['frames'], v['segs'] = [1, 5], None
+        elif kw == 'ReferencedSegmentNumber' or rng.random() < 0.5:
+            v['frames'], v['segs'] = None, [2]
+    if t == 'WAVEFORM' and (kw == 'ReferencedWaveformChannels' or rng.random() < 0.5):
+        v['ch'] = [[1, 2], [3, 400]]
+    if t == 'CONTAINER':
+        v['tmpl'] = '1500'
+    path = []
+    for _ in range(rng.choice([0, 0, 0, 1, 1, 2])):
+        sib = [g_tree(rng, 0, 0, False, False) for _ in range(rng.choice([0, 0, 1]))]
+        i = rng.randint(0, len(sib))
+        tree = {'t': 'CONTAINER', 'name': g_code(rng), 'rel': rng.choice(RELS), 'val': g_value(rng, 'CONTAINER', False),
+                'kids': sib[:i] + [tree] + sib[i:]}
+        path = [i] + path
+    return {'kind': 'nested', 'tree': tree, 'path': path, 'seq': seq.split('/'), 'op': op, 'kw': kw,
+            'src': rng.choice(['plain', 'plain', 'bytes'])}
+
+
+def _nested_inputs(c):
+    from pydicom.dataset import Dataset
+    from pydicom.sequence import Sequence
+    it = build(c['tree'])
+    ds = via_bytes(it) if c['src'] == 'bytes' else plain(it)
+    node = ds
+    for i in c['path']:
+        node = node.ContentSequence[i]
+    holder = node
+    for kw in c['seq'][:-1]:
+        holder = holder[kw].value[0]
+    elem = holder[c['seq'][-1]]
+    if c['op'] == 'empty':
+        elem.value = Sequence([])
+    elif c['op'] == 'del':
+        del elem.value[0][c['kw']]
+    elif c['op'] == 'second':
+        extra = Dataset() if c['kw'] is None else copy.deepcopy(elem.value[0])
+        if c['kw'] is not None:
+            del extra[c['kw']]
+        elem.value = Sequence(list(elem.value) + [extra])
+    else:
+        raise ValueError(c['op'])
+    return ds
+
+
 def gen_cases(rng, tier):
     n = {'quick': 1, 'thorough': 12, 'search': 5}[tier]
     cases = []
@@ -918,7 +1113,40 @@ def gen_cases(rng, tier):
         cases.append(g_coplanar(rng))
     for _ in range(60 * n):
         cases.append(g_history(rng))
-    return cases
+    # --- 3D contours that almost close: gap kind x distance from the origin x entry point ---
+    for _ in range(n):
+        for gap in ('ulp', 'rel', 'abs'):
+            for mag in (0.0, 1.0, 41.237, 210.5, 1532.25, 2.0**20, 1e6, 123456.789):
+                for _ in range(2):
+                    cases.append(g_nearclosed(rng, gap, mag))
+        for mag in (0.0, 41.237, 1532.25, 2.0**20, 1e6, 987.0):
+            cases.append(g_nearclosed(rng, 'negzero', mag))
+            cases.append(g_nearclosed(rng, 'closed', mag))
+            cases.append(g_nearclosed(rng, 'closed', mag))
+        for _ in range(16):
+            cases.append(g_nearclosed(rng))
+    # --- attributes inside the sequence items of a value: each deleted / sequence emptied / a second item ---
+    for _ in range(n):
+        for t, seqs in NESTED.items():
+            for seq, kws in seqs.items():
+                for kw in kws:
+                    variants = ['int', 'float', 'big'] if t == 'NUM' else [None]
+                    if kw == 'FloatingPointValue':
+                        variants = ['float', 'big']
+                    for var in variants:
+                        for _ in range(2 if kw == 'MeasurementUnitsCodeSequence' else 1):
+                            cases.append(g_nested(rng, t, seq, 'del', kw, var))
+                for _ in range(2 if t == 'NUM' else 1):
+                    cases.append(g_nested(rng, t, seq, 'empty'))
+                cases.append(g_nested(rng, t, seq, 'second', rng.choice([None] + kws)))
+        for t in VTS:             # the sequence that holds the NAME
+            cases.append(g_nested(rng, t, 'ConceptNameCodeSequence', 'empty'))
+            if rng.random() < 0.35:
+                cases.append(g_nested(rng, t, 'ConceptNameCodeSequence', 'second', rng.choice([None, 'CodeMeaning'])))
+    # the model is evaluated in shards of 300 consecutive cases, in parallel: deal the cases out so that the expensive
+    # kinds (trees) are spread over all shards instead of filling the first one
+    k = -(-len(cases) // 300)
+    return [c for i in range(k) for c in cases[i::k]]
 
 
 # --------------------------------------------------------------------------
@@ -1437,6 +1665,15 @@ def run_impl(c):
         dim = 2 if c['mode'] == 'dim2' else 3
         return catch(lambda: bool(sr.Scoord3DContentItem(n, c['gt'], _lay(np.array(c['pts'], dtype=float).reshape(len(c['pts']), dim)),
                                                           '1.2.3', relationship_type='CONTAINS')) or True)
+    if k == 'nearclosed':
+        return catch(_nearclosed_impl, c)
+    if k == 'nested':
+        ds = catch(_nested_inputs, c)
+        if isinstance(ds, Err):
+            return ds
+        cls = CLASS[c['tree']['t']]
+        return [catch(_status_own, cls, plain(ds)), catch(_parse_own, cls, plain(ds), True),
+                catch(_status_seq, [plain(ds)]), catch(_parse_seq, [plain(ds)], True)]
     if k == 'malformed':
         r = catch(_mal_inputs, c)
         if isinstance(r, Err):
@@ -1483,6 +1720,34 @@ def run_impl(c):
             return 'ok'
         return catch(f)
     raise ValueError(k)
+
+
+def _nearclosed_impl(c):
+    """the contour given as POLYGON to one of the constructors that take 3D graphic data; True = accepted (and the item
+    reports exactly these rows, also after bytes)"""
+    import numpy as np
+    sr, vtm = _hd()
+    import highdicom.sr.content as cm
+    want = np.array(c['pts'], dtype=float)
+    arr = _lay(want.copy())
+    via = c['via']
+    if via == 'item':
+        it = sr.Scoord3DContentItem(_cc(sr, ['1', '99X', 'n', None]), 'POLYGON', arr, '1.2.3', relationship_type='CONTAINS')
+    elif via == 'region3d':
+        it = cm.ImageRegion3D('POLYGON', arr, '1.2.3')
+    elif via == 'coords3d':
+        it = cm.CoordinatesForMeasurement3D('POLYGON', arr, '1.2.3')
+    elif via == 'surface':
+        first = np.array([[0.0, 0.0, 0.0], [1.0, 0.0, 0.0], [0.0, 1.0, 0.0], [0.0, 0.0, 0.0]])
+        it = cm.VolumeSurface('POLYGON', [first, arr], '1.2.3', source_series=cm.SourceSeriesForSegmentation('1.2.4'))[1]
+    else:
+        raise RuntimeError(via)
+    back = vtm.Scoord3DContentItem.from_dataset(via_bytes(it))
+    # Graphic Data has VR FL: a file keeps the nearest single-precision numbers
+    for what, v, w in (('constructed', it.value, want), ('parsed', back.value, want.astype(np.float32).astype(float))):
+        if not np.array_equal(v, w):
+            return f'{what} item reports {v.tolist()}'
+    return True
 
 
 def _seqops_impl(c):
@@ -1724,6 +1989,14 @@ def coq_term(c):
         return f'(run_scoord {G2[c["gt"]]} {_qrows(c["pts"])})'
     if k == 'scoord3d':
         return f'(run_scoord3d {G3[c["gt"]]} {_qrows(c["pts"])})'
+    if k == 'nearclosed':     # every entry point hands the rows to Scoord3DContentItem.__init__: the same verdict
+        return f'(run_scoord3d G3Polygon {_qrows(c["pts"])})'
+    if k == 'nested':
+        _hd()
+        ds = catch(_nested_inputs, c)
+        if isinstance(ds, Err):
+            return None
+        return f'(run_parse {CLASS[c["tree"]["t"]]} {tree_coq(ds_tree(ds))})'
     if k == 'concept':
         _hd()
         ds = catch(_concept_inputs, c)
@@ -2034,6 +2307,27 @@ def oracle(c, out):
             return f'complete {what} ({c["fault"]}) refused: from_dataset {st_own}, from_sequence {st_seq}'
         d = _first_diff(own, exp, 'from_dataset') or _first_diff(seq, [exp], 'from_sequence')
         return d and f'{what} ({c["fault"]}): {d}'
+    if k == 'nearclosed':
+        pts = c['pts']
+        closed = all(a == b for a, b in zip(pts[0], pts[-1]))          # IEEE equality: 0.0 == -0.0
+        cop = _coplanar_verdict(pts)
+        if cop is None:
+            return None
+        want = closed and cop
+        if out is not True and out != Err('ValueError'):
+            return f'3D POLYGON through {c["via"]}: unexpected outcome {out}'
+        if (out is True) == want:
+            return None
+        gaps = [abs(a - b) for a, b in zip(pts[0], pts[-1])]
+        if not closed:
+            return (f'open 3D POLYGON accepted ({c["via"]}): first point {pts[0]}, last point {pts[-1]} - they differ by '
+                    f'{max(gaps):.3g} mm (|coordinate| up to {max(abs(x) for x in pts[-1]):.6g}); the standard demands '
+                    f'first point == last point, however far the contour is from the origin')
+        return f'closed planar 3D POLYGON refused ({c["via"]}): {pts}'
+    if k == 'nested':
+        if isinstance(out, Err):
+            return f'admissible base tree of a nested case refused: {out}'
+        return _nested_oracle(c, out)
     if k == 'scoord':
         n = len(c['pts'])
         want = c['dim'] == 2 and {'POINT': n == 1, 'CIRCLE': n == 2, 'ELLIPSE': n == 4}.get(c['gt'], n >= 2)
@@ -2188,6 +2482,100 @@ def oracle(c, out):
     return f'unknown kind {k}'
 
 
+# sequences whose first item is a coded concept that X.from_dataset converts (so it has to be there when parsing)
+CONCEPT_HOLDERS = ['ConceptNameCodeSequence', 'ConceptCodeSequence', 'MeasuredValueSequence/MeasurementUnitsCodeSequence',
+                   'NumericValueQualifierCodeSequence']
+OPTIONAL_INNER = ['ReferencedFrameNumber', 'ReferencedSegmentNumber', 'ReferencedWaveformChannels', 'MappingResource',
+                  'TemplateIdentifier', 'FloatingPointValue']
+
+
+def _nested_oracle(c, out):
+    """from the standard's attribute types and the case description alone:
+    - a coded concept (name, CODE value, NUM unit, NUM qualifier) is checked when parsing, so the sequence that should hold
+      it - Measurement Units Code Sequence is Type 1 in the measured value - must be there and have an item: refused by
+      X.from_dataset ALONE and by from_sequence ALONE (AttributeError when the attribute is missing);
+    - a missing Type 1 attribute that is only read later (referenced SOP class / instance, Numeric Value when there is no
+      Floating Point Value) must at the latest fail the accessors with AttributeError - never yield a value; an emptied
+      Referenced SOP / Measured Value Sequence must not yield a value either;
+    - optional attributes (frame / segment numbers, channels, template identification, Floating Point Value) may go: the
+      item parses and reports the rest unchanged (value = float(Numeric Value) without Floating Point Value);
+    - a second item behind a complete first one changes nothing that is reported (if the dataset is accepted)."""
+    st_own, own, st_seq, seq = out
+    node = c['tree']
+    for i in c['path']:
+        node = node['kids'][i]
+    t, v, op, kw = node['t'], node['val'], c['op'], c['kw']
+    seqs = '/'.join(c['seq'])
+    cls = CLASS[c['tree']['t']]
+    what = (f'{t} item (depth {len(c["path"])}, {c["src"]} dataset) with ' +
+            {'del': f'{seqs}[0] lacking {kw}', 'empty': f'an EMPTY {seqs}',
+             'second': f'a second item in {seqs} ({"empty" if kw is None else "lacking " + str(kw)})'}[op])
+    four = ((f'{cls}.from_dataset', st_own), ('ContentSequence.from_sequence', st_seq),
+            (f'{cls}.from_dataset + accessors', own), ('from_sequence + accessors', seq))
+    exp = exp_item(copy.deepcopy(c['tree']))
+    e = exp
+    for i in c['path']:
+        e = e[4][i]
+    must_parse = False
+    if op == 'del' and kw == 'MeasurementUnitsCodeSequence':
+        for nm, o in four:
+            if o != Err('AttributeError'):
+                return f'{nm} did not refuse (AttributeError) a {what}: {_short_out(o)}'
+        return None
+    if op == 'empty' and seqs in CONCEPT_HOLDERS:
+        for nm, o in four:
+            if not isinstance(o, Err):
+                return f'{nm} accepted a {what}: {_short_out(o)}'
+        return None
+    if op == 'empty' and seqs in ('ReferencedSOPSequence', 'MeasuredValueSequence'):
+        # (an empty Measured Value Sequence is legal - Type 2 - but then there is no value to report; whether
+        # from_dataset itself refuses it is left to the model comparison: the code does, with IndexError)
+        for nm, o in four[2:]:
+            if not isinstance(o, Err):
+                return f'{nm}: a {what} yields a value: {_short_out(o)}'
+        return None
+    if op == 'del' and (kw in ('ReferencedSOPClassUID', 'ReferencedSOPInstanceUID') or
+                        (kw == 'NumericValue' and not v['isf'] and len(str(int(v['num']))) <= 16)):
+        for nm, o in four[2:]:
+            if o != Err('AttributeError'):
+                return f'{nm}: a {what} (Type 1) did not end in AttributeError: {_short_out(o)}'
+        for nm, o in four[:2]:
+            if o not in ('ok', Err('AttributeError')):
+                return f'{nm}: a {what}: {_short_out(o)}'
+        return None
+    if op == 'del' and kw in OPTIONAL_INNER:
+        must_parse = True
+        if kw == 'ReferencedFrameNumber':
+            e[3][2] = None
+        elif kw == 'ReferencedSegmentNumber':
+            e[3][3] = None
+        elif kw == 'ReferencedWaveformChannels':
+            e[3][2] = None
+        elif kw == 'TemplateIdentifier':
+            e[3][1] = None
+        elif kw == 'FloatingPointValue':
+            _hd()
+            ds = _nested_inputs(c)
+            for i in c['path']:
+                ds = ds.ContentSequence[i]
+            e[3][0], e[3][1] = F(float(ds.MeasuredValueSequence[0].NumericValue)), False
+    if op == 'empty' and seqs == 'ContentTemplateSequence':
+        e[3][1] = None
+    if must_parse and (st_own != 'ok' or st_seq != 'ok'):
+        return f'a {what} (optional) was refused: from_dataset {st_own}, from_sequence {st_seq}'
+    # everything else (Numeric Value deleted beside a Floating Point Value, a second item, an emptied optional sequence):
+    # refusing is acceptable, reporting something else than the first item holds is not
+    for nm, o, w in ((f'{cls}.from_dataset', own, exp), ('from_sequence', seq, [exp])):
+        if isinstance(o, Err):
+            if must_parse:
+                return f'{nm}: accessors of a {what} raised {o}'
+            continue
+        d = _first_diff(o, w, nm)
+        if d:
+            return f'a {what}: {d}'
+    return None
+
+
 def _short_out(o):
     s_ = repr(o)
     return s_ if len(s_) < 200 else s_[:200] + '...'
@@ -2300,6 +2688,19 @@ def shrink(c):
                 yield dict(c, tree=dict(t, kids=t['kids'][:i] + [k2] + t['kids'][i + 1:]))
     if c['kind'] in ('scoord', 'scoord3d') and len(c['pts']) > 1:
         yield dict(c, pts=c['pts'][:-1])
+    if c['kind'] == 'nearclosed':
+        for i in range(1, len(c['pts']) - 1):           # keep both end points
+            yield dict(c, pts=c['pts'][:i] + c['pts'][i + 1:])
+        if c['via'] != 'item':
+            yield dict(c, via='item')
+    if c['kind'] == 'nested':
+        if c['src'] != 'plain':
+            yield dict(c, src='plain')
+        if c['path']:
+            t = c['tree']
+            for i in c['path']:
+                t = t['kids'][i]
+            yield dict(c, tree=t, path=[])
     if c['kind'] == 'coplanar':
         for i in range(len(c['pts'])):
             yield dict(c, pts=c['pts'][:i] + c['pts'][i + 1:])
